@@ -79,7 +79,14 @@ def handshake_datagram_times():
         r.run()
         ts = sorted({round(t, 3) for (t, d, _data, _info) in r.s.net.log if d == "c2s" and t < 11.0})
         _PILOT["t"] = ts
+        _PILOT["ev"] = sorted({round(e["t"] / 1000.0, 3) for e in r.log if e["k"] == "deliver" and e["t"] < 11000})
     return _PILOT["t"]
+
+
+def event_times():
+    """times of the event deliveries of the same pilot run (the boundaries between the steps of discovery / handshake)"""
+    handshake_datagram_times()
+    return _PILOT["ev"]
 
 
 def scenarios(rng, quick):
@@ -96,6 +103,12 @@ def scenarios(rng, quick):
         pts = [round(0.05 + 0.1 * k, 2) for k in range(0, 90)]
     for t in pts:
         out.append((f"reset@{t}", [(t, "reset", None)], {}, t + 45))
+    # ... and shortly after every event delivery of an undisturbed run (inside the step that the event opens: the
+    # second discovery of a connection attempt, each handshake request, ...)
+    for te in event_times():
+        for d in ([0.05] if quick else [0.002, 0.05, 0.09]):
+            t = round(te + d, 3)
+            out.append((f"reset@ev{te}+{d}", [(t, "reset" if int(te * 1000) % 2 == 0 else "setinfo", None)], {}, t + 45))
     # blackouts of various lengths at various moments
     for (a, d) in [(0.5, 3.0), (0.5, 200.0), (4.5, 30.0), (4.5, 100.0), (12.0, 50.0), (12.0, 400.0), (30.0, 130.0)]:
         out.append((f"blackout@{a}+{d}", [(a, "net", "blackout"), (a + d, "net", "ok")], {}, a + d + 250))
